@@ -31,18 +31,35 @@ type Program struct {
 	byName  map[string]*ssa.Function
 	modPkgs map[*types.Package]bool
 	LoadS   float64
+	Cache   *Program // the separately loaded /repo/cache module (nil inside it)
 }
 
 // Load loads root (normally /repo). Any load or type error is returned: a
 // check never reports "held" on a tree it could not fully see.
 func Load(root string) (*Program, error) {
+	p, err := load(root, root, 11)
+	if err != nil {
+		return nil, err
+	}
+	// The cache module is a separate module (the root module builds against
+	// the released copy in the module cache), so /repo/cache is analysed from
+	// its own directory.
+	cp, err := load(root, filepath.Join(root, "cache"), 2)
+	if err != nil {
+		return nil, fmt.Errorf("cache module: %v", err)
+	}
+	p.Cache = cp
+	return p, nil
+}
+
+func load(root, dir string, minPkgs int) (*Program, error) {
 	cfg := &packages.Config{
 		Mode:  packages.LoadAllSyntax,
-		Dir:   root,
+		Dir:   dir,
 		Tests: false,
 		Env:   append(os.Environ(), "GOWORK=off"),
 	}
-	pkgs, err := packages.Load(cfg, "./...", ModPath+"/cache/...")
+	pkgs, err := packages.Load(cfg, "./...")
 	if err != nil {
 		return nil, fmt.Errorf("go/packages: %v", err)
 	}
@@ -73,8 +90,8 @@ func Load(root string) (*Program, error) {
 		p.modPkgs[pk.Types] = true
 	}
 	sort.Slice(p.Mod, func(i, j int) bool { return p.Mod[i].PkgPath < p.Mod[j].PkgPath })
-	if len(p.Mod) < 13 {
-		return nil, fmt.Errorf("expected at least 13 module packages, loaded %d", len(p.Mod))
+	if len(p.Mod) < minPkgs {
+		return nil, fmt.Errorf("expected at least %d module packages in %s, loaded %d", minPkgs, dir, len(p.Mod))
 	}
 	prog, _ := ssautil.AllPackages(pkgs, ssa.BuilderMode(0))
 	prog.Build()
@@ -201,7 +218,7 @@ func (p *Program) Field(pkg, typ, field string) *types.Var {
 	}
 	for i := 0; i < st.NumFields(); i++ {
 		if st.Field(i).Name() == field {
-			return st.Field(i)
+			return st.Field(i).Origin()
 		}
 	}
 	return nil
